@@ -10,7 +10,7 @@ use crate::common::*;
 use lrpar::RecoveryKind;
 use rayon::prelude::*;
 use serde_json::json;
-use vcore::gram::{RefGrammar, all_inputs, family_wide, input_alphabet, inputs_over, family_empty, family_chains, family_empty2, family_expr, family_lalr, family_lalr2, family_seeds, family_ternary, neighbourhood};
+use vcore::gram::{RefGrammar, all_inputs, family_gc, family_lalr3, family_wide, input_alphabet, inputs_over, family_empty, family_chains, family_empty2, family_expr, family_lalr, family_lalr2, family_seeds, family_ternary, neighbourhood};
 use vcore::real::{Built, Drv, HInput, build, parse};
 use vcore::refs::{Earley, Lr1, analyse};
 use vcore::report::Ctx;
@@ -132,10 +132,20 @@ fn check_grammar_inner(ctx: &Ctx, mode: Mode, g: &RefGrammar, n: usize, only_inp
         }
     }
     let ea = Earley::new(g);
-    let drv = Drv::new(&b, n);
+    let drv = Drv::new(&b, n.max(8));
     let inputs: Vec<Vec<usize>> = match only_input {
         Some(w) => vec![w.clone()],
-        None => inputs_over(&input_alphabet(g), n),
+        None => {
+            let alpha = input_alphabet(g);
+            let mut v = inputs_over(&alpha, n);
+            if alpha.len() > 5 {
+                // "every string up to length 3" does not reach the sentences of these grammars:
+                // add every sentence up to length 7 with its prefixes and single-token edits
+                let seen: std::collections::HashSet<Vec<usize>> = v.iter().cloned().collect();
+                v.extend(vcore::refs::sentence_neighbourhood(g, &alpha, 7, 200).into_iter().filter(|w| !seen.contains(w)));
+            }
+            v
+        }
     };
     for w in &inputs {
         let real_toks: Vec<_> = w.iter().map(|t| b.tmap[*t]).collect();
@@ -274,14 +284,30 @@ fn check_grammar_inner(ctx: &Ctx, mode: Mode, g: &RefGrammar, n: usize, only_inp
 
 fn grammar_space(ctx: &Ctx, mode: Mode) -> (Vec<RefGrammar>, Vec<(String, usize)>) {
     let lists = if ctx.quick() {
-        universe_list(&[(2, 2, 2, 2, 6), (2, 2, 2, 3, 5), (3, 2, 1, 3, 5), (2, 3, 2, 2, 6), (3, 2, 2, 2, 5)])
+        universe_list(&[(2, 2, 2, 2, 6), (2, 2, 2, 3, 5), (3, 2, 1, 3, 5), (2, 3, 2, 2, 6), (3, 2, 2, 2, 5), (2, 1, 2, 3, 7)])
     } else {
-        universe_list(&[(2, 2, 2, 2, 6), (2, 3, 2, 2, 6), (2, 2, 3, 2, 6), (3, 2, 2, 2, 6), (2, 2, 2, 3, 7)])
+        universe_list(&[(2, 2, 2, 2, 6), (2, 3, 2, 2, 6), (2, 2, 3, 2, 6), (3, 2, 2, 2, 6), (2, 2, 2, 3, 7), (2, 1, 2, 4, 8), (2, 1, 3, 3, 8)])
     };
+    // ad-hoc exploration: VERIF_UNIVERSES="r,t,p,l,k;r,t,p,l,k" replaces the whole grammar space
+    if let Ok(u) = std::env::var("VERIF_UNIVERSES") {
+        let us: Vec<(usize, usize, usize, usize, usize)> = u
+            .split(';')
+            .map(|x| {
+                let v: Vec<usize> = x.split(',').map(|n| n.trim().parse().unwrap_or_else(|_| machinery("VERIF_UNIVERSES: r,t,p,l,k;..."))).collect();
+                if v.len() != 5 {
+                    machinery("VERIF_UNIVERSES: r,t,p,l,k;...");
+                }
+                (v[0], v[1], v[2], v[3], v[4])
+            })
+            .collect();
+        return union(universe_list(&us));
+    }
     let (mut gs, mut sizes) = union(lists);
     let fams: Vec<(&str, Vec<RefGrammar>)> = vec![
         ("F-lalr", family_lalr()),
         ("F-lalr2", if mode == Mode::C02 { family_lalr2() } else { vec![] }),
+        ("F-lalr3 (two-item kernels reached over paths of different lengths)", if mode == Mode::C04 && ctx.quick() { vec![] } else { family_lalr3(ctx.quick()) }),
+        ("F-gc (tables whose construction strands a state) with edit-distance-1 neighbourhoods", family_gc()),
         ("F-ternary", family_ternary()),
         ("F-chains", family_chains()),
         ("F-empty", family_empty().into_iter().chain(family_empty2()).collect()),
